@@ -185,9 +185,6 @@ Theorem voronoi_nonneg w :
 Proof.
   intros Hc I. destruct (In_nth _ _ 0 I) as (n & Hn & <-).
   rewrite voronoi_length in Hn.
-  change (nth n (voronoi RR distmax nrows ncols xll yll csz cells pts) 0)
-    with (zn (voronoi RR distmax nrows ncols xll yll csz cells pts) (Z.of_nat n) 0)
-    || (unfold zn; rewrite ?Nat2Z.id).
   pose proof (voronoi_weight (Z.of_nat n) ltac:(lia)) as E. unfold zn in E. rewrite Nat2Z.id in E.
   rewrite E. unfold Rdiv. apply Rmult_le_pos; [apply pos_INR|].
   left. apply Rinv_0_lt_compat. apply lt_0_INR. destruct cells; [congruence|cbn; lia].
